@@ -184,7 +184,10 @@ def table_locals(body):
         if len(whole) == 1 and not partial and whole[0][0] == 'st' and whole[0][3]['rv']['k'] == 'agg' and l in body.names:
             theta = l
         elif partial and l in body.names:
-            sols = l
+            if theta is None and all(d[0] == 'st' and len(d[3]['lhs']['proj']) == 1 for d in partial) and unrolled_rows(body, l) is not None:
+                theta = l             # the candidate table filled row by row in a loop over a literal array
+            else:
+                sols = l
     return theta, sols
 
 
@@ -956,3 +959,80 @@ def case_values(b, t, depth=4):
                 out.extend(case_values(b, b._def_term(d), depth - 1))
             return out
     return [t]
+
+
+def unrolled_rows(b, local, nrows=8, ncols=None):
+    """The rows of a table that is not written as one literal but filled row by row in a loop over another literal array
+    (`for (i, branch) in arm.iter().enumerate() { t[i] = *branch; t[i + arm.len()] = [..branch[k]..] }`): the loop is
+    unrolled over the elements of the source array and the index and value terms are evaluated per element.  None unless
+    every row is assigned exactly once, by whole-row stores whose index is `i` or `i + <constant or length>`."""
+    rows = {}
+    for d in b.defs().get(local, []):
+        if d[4]:
+            continue                      # the initialiser (`[[NAN; 6]; 8]`)
+        if d[0] != 'st':
+            return None
+        lhs = d[3]['lhs']
+        if len(lhs['proj']) != 1 or lhs['proj'][0]['k'] != 'index':
+            return None
+        at = (d[1], d[2])
+        it = strip(b.term_local(lhs['proj'][0]['local'], at))
+        val = b.rv_term(d[3]['rv'], at)
+        # the (index, element) pair of the enumerate loop
+        pairs = mir.subterms(it, lambda x: x[0] == 'fld' and x[2] == '0' and isinstance(strip(x[1]), tuple) and strip(x[1])[0] == 'fld' and
+                             strip(x[1])[2] == '0' and loop_source(strip(x[1])) is not None)
+        if not pairs:
+            return None
+        pair = strip(pairs[0][1])
+        base, ad = iter_chain(loop_source(pair))
+        base = strip(base)
+        while isinstance(base, tuple) and base[0] in ('ref', 'deref', 'cast'):
+            base = strip(base[1])
+        if 'enumerate' not in ad or not (isinstance(base, tuple) and base[0] == 'agg' and base[1] == 'array'):
+            return None
+        src_rows = [strip(r) for r in base[2:]]
+        n = len(src_rows)
+
+        def inst(t, k):
+            def f(x):
+                if not isinstance(x, tuple):
+                    return x
+                if x[0] == 'fld' and strip(x[1]) == pair and x[2] == '0':
+                    return ('const', 'usize', k, None)
+                if x[0] == 'fld' and strip(x[1]) == pair and x[2] == '1':
+                    return ('ref', src_rows[k])
+                if x[0] == 'call' and mir.cname(x[1]).split('::')[-1] == 'len' and len(x) == 3:
+                    a = strip(x[2])
+                    while isinstance(a, tuple) and a[0] in ('ref', 'deref', 'cast'):
+                        a = strip(a[1])
+                    if a == base:
+                        return ('const', 'usize', n, None)
+                return (x[0],) + tuple(f(y) if isinstance(y, tuple) else y for y in x[1:])
+            return f(t)
+
+        def intval(t):
+            t = strip(t)
+            c = const_val(t)
+            if isinstance(c, int) and not isinstance(c, bool):
+                return c
+            if isinstance(t, tuple) and t[0] == 'bin' and t[1] in ('Add', 'AddWithOverflow', 'AddUnchecked'):
+                a, c2 = intval(t[2]), intval(t[3])
+                return a + c2 if a is not None and c2 is not None else None
+            if isinstance(t, tuple) and t[0] == 'fld' and t[2] == '0':
+                return intval(t[1])
+            if isinstance(t, tuple) and t[0] == 'agg' and t[1] == 'tuple' and len(t) >= 3:
+                return intval(t[2])
+            return None
+        for k in range(n):
+            idx = intval(inst(it, k))
+            if idx is None or idx in rows or not (0 <= idx < nrows):
+                return None
+            v = strip(inst(val, k))
+            while isinstance(v, tuple) and v[0] in ('deref', 'ref'):
+                v = strip(v[1])
+            if not (isinstance(v, tuple) and v[0] == 'agg' and v[1] == 'array'):
+                return None
+            rows[idx] = v
+    if sorted(rows) != list(range(nrows)):
+        return None
+    return [rows[k] for k in range(nrows)]
